@@ -35,7 +35,7 @@ import models
 from engine import VAdt, VBool, VInt, VOpaque, VRef, VSeq, VStruct, VTuple, VUnit, base_ty, vcopy, norm_ty
 from specutil import is_variant, run_reference, vid_of
 import t_parse as TP
-from t_parse import mk_token, variant, span_of, code_points, verify_block, result_parts, entry, PREC, BINARY_TOKENS
+from t_parse import mk_token, variant, code_points, verify_block, result_parts, entry, PREC, BINARY_TOKENS
 
 I64_MAX = (1 << 63) - 1
 OPNAME = {"Add": "Add", "Minus": "Sub", "Multiply": "Mul", "Divide": "Div", "Mod": "Mod", "LessThan": "Lt", "LessEqual": "Le", "EqualEqual": "Eq", "NotEqual": "Ne",
@@ -61,8 +61,23 @@ def atom(ex, i, name):
     return VStruct("TokenWithLoc", [t, rng], ex.new_vid())
 
 
-def template(*items):
+def stairs(i):
+    """a layout that puts every token on its own line, each further to the left than the one before:
+    (line, first column, end column)"""
+    return (i, 40 - 3 * i, 42 - 3 * i)
+
+
+def template(*items, layout=None):
     def build(ex):
+        toks = build_tokens(ex)
+        if layout is not None:
+            ex.notes["layout"] = layout
+            for i, tw in enumerate(toks):
+                l, c0, c1 = layout(i)
+                tw.fields[1] = VStruct("SourceRange", [TP.loc(l, c0), TP.loc(l, c1)])
+        return toks
+
+    def build_tokens(ex):
         toks = []
         for i, it in enumerate(items):
             if isinstance(it, (tuple, list)):
@@ -371,7 +386,29 @@ def real_tree(ex, v, tok_of_payload):
 
 
 def COL(i):
-    return (3 * i, 3 * i + 2)
+    return ((0, 3 * i), (0, 3 * i + 2))
+
+
+def layout_cols(ex):
+    lay = ex.notes.get("layout")
+    if lay is None:
+        return None
+    return [((lay(i)[0], lay(i)[1]), (lay(i)[0], lay(i)[2])) for i in range(len(ex.notes["toks"]))]
+
+
+def span_of(node):
+    """((line, column), (line, column)) of an AstNode"""
+    rng = node.fields[0]
+    return tuple((p.fields[0].concrete(), p.fields[1].concrete()) for p in rng.fields[:2])
+
+
+def m_location(ex, callee, args, ret_ty, frame):
+    """Tokenizer::location(): the end of the last token handed out"""
+    pos = ex.notes["pos"]
+    if pos == 0:
+        return TP.loc(0, 0)
+    rng = ex.notes["toks"][pos - 1].fields[1]
+    return vcopy(rng.fields[1])
 
 
 def compare(got, want, faults, path="root", cols=None):
@@ -606,7 +643,8 @@ def m_interp_run_raw(ex, callee, args, ret_ty, frame):
 
 GRAMMAR_CFG = dict(TP.PARSE_CFG)
 GRAMMAR_CFG["loop_bound"] = 160
-GRAMMAR_CFG["models"] = [m for m in TP.PARSE_CFG["models"] if m[1] not in (TP.m_value_op,) and "is_truthy" not in m[0]] + [
+GRAMMAR_CFG["models"] = [m for m in TP.PARSE_CFG["models"] if m[1] not in (TP.m_value_op, TP.m_location) and "is_truthy" not in m[0]] + [
+    (r"^<dyn Tokenizer as Tokenizer>::location$", m_location),
     (r"^(CelValue::(or|and|lt|le|gt|ge|neq|in_|index|access)|<CelValue as (Add|Sub|Mul|Div|Rem|Not|Neg|CelValueDyn)>::(add|sub|mul|div|rem|not|neg|eq|access))$", m_fold_op),
     (r"is_truthy$", m_is_truthy),
     (r"^Interpreter::(<.*>::)?empty$", m_interp_empty), (r"^Interpreter::(<.*>::)?add_bindings$", m_interp_add_bindings), (r"^Interpreter::(<.*>::)?run_raw$", m_interp_run_raw),
@@ -886,13 +924,43 @@ def scenario_of(ex):
                 out.append(("IntLit", model.eval(f[0].bv, model_completion=True).as_long()))
             else:
                 out.append((k,))
-        return {"kind": "grammar", "tokens": out}
+        lay = ex.notes.get("layout")
+        sc = {"kind": "grammar", "tokens": out}
+        if lay is not None:
+            sc["layout"] = [list(lay(i)[:2]) for i in range(len(out))]
+        return sc
     return build
+
+
+def prefer_literals(ex):
+    """among the counterexamples prefer small, distinct, non-zero literal values (a concrete instance
+    that shows the difference natively: `- - 0` would hide a lost negation)"""
+    def prefer():
+        out = []
+        il = ex.P.types.variant_index("Token", "IntLit")
+        for i, tw in enumerate(ex.notes["toks"]):
+            f = tw.fields[0].fields.get(il)
+            if f:
+                out.append(f[0].bv == 3 + 2 * i)
+        return out
+    return prefer
 
 
 def check_grammar(res, V):
     ex = res.ex
     sc = scenario_of(ex)
+    _check = V.check
+    pl = prefer_literals(ex)
+
+    class VV:
+        witness = V.witness
+        inconclusive = V.inconclusive
+
+        @staticmethod
+        def check(*a, **kw):
+            kw.setdefault("prefer", pl)
+            return _check(*a, **kw)
+    V = VV
     if res.outcome == "panic":
         V.check(ex, "the parser reports an error instead of panicking", False, detail=res.msg, scenario=sc)
         return
@@ -946,7 +1014,7 @@ def check_grammar(res, V):
             return literal_token(ex, p)
         got = real_tree(ex, ast, tok_of_payload)
         faults = {"shape": [], "span": [], "argorder": []}
-        compare(got, want, faults)
+        compare(got, want, faults, cols=layout_cols(ex))
         V.check(ex, "the syntax tree is the one the grammar defines (precedence, association, grouping, operand order)", not faults["shape"], assumed,
                 detail=lambda: f"`{text}`: grammar {show(want)}; {faults['shape'][:3]}", scenario=sc)
         V.check(ex, "call arguments appear in the tree in source order", not faults["argorder"], assumed, detail=lambda: f"`{text}`: {faults['argorder'][:2]}", scenario=sc)
@@ -978,8 +1046,8 @@ def check_grammar(res, V):
                 detail=lambda: f"`{text}`: reads {o['got_reads']}, semantics {o['ref_reads']}; code {code}", scenario=sc)
 
 
-def tgt(name, items, what, props=("C02", "C09", "C17", "C18", "C10", "C05", "C01"), tier="quick", max_paths=20000):
-    return dict(name=name, props=list(props), func=entry, cfg=GRAMMAR_CFG, make_args=TP.make_args_for(template(*items)), check=check_grammar, max_paths=max_paths,
+def tgt(name, items, what, props=("C02", "C09", "C17", "C18", "C10", "C05", "C01"), tier="quick", max_paths=20000, layout=None):
+    return dict(name=name, props=list(props), func=entry, cfg=GRAMMAR_CFG, make_args=TP.make_args_for(template(*items, layout=layout)), check=check_grammar, max_paths=max_paths,
                 what=what, bounds={"tokens": str(len(items))}, tier=tier)
 
 
@@ -988,8 +1056,11 @@ REPS = ("OrOr", "AndAnd", "LessThan", "In", "Add", "Minus", "Multiply", "Mod")
 
 TARGETS = [
     tgt("gram_atoms2", ["@a", tuple(BINARY_TOKENS), "@b"], "`A op B`, each operand a variable or an integer literal, every binary operator: folded and emitted forms against the semantics"),
-    tgt("gram_atoms3", ["@a", ARITH + ("LessThan", "OrOr", "AndAnd"), "@b", ARITH + ("EqualEqual", "OrOr", "AndAnd"), "@c"],
+    tgt("gram_atoms3", ["@a", ("Add", "Multiply", "LessThan", "AndAnd"), "@b", ("Minus", "Mod", "EqualEqual", "OrOr"), "@c"],
         "`A op1 B op2 C` over variables/literals: grouping, partial folding (left group folded, right operand run-time and the reverse)"),
+    tgt("gram_atoms3_all", ["@a", ARITH + ("LessThan", "OrOr", "AndAnd"), "@b", ARITH + ("EqualEqual", "OrOr", "AndAnd"), "@c"],
+        "`A op1 B op2 C` over variables/literals, 8 x 8 operators", tier="thorough"),
+    tgt("gram_chain4", ["a", tuple(REPS), "b", tuple(REPS), "c", tuple(REPS), "d"], "`a op1 b op2 c op3 d`: every triple of 8 operators covering all precedence levels", tier="thorough"),
     tgt("gram_unary", [("Not", "Minus"), ("Not", "Minus", "LParen"), "@a", tuple(BINARY_TOKENS), "b"],
         "`!!a op b`, `--a op b`, `!(a op b` ...: prefix runs bind tighter than every binary operator, mixed runs and unbalanced parentheses are rejected"),
     tgt("gram_unary_rhs", ["a", ("Add", "Minus", "Multiply", "LessThan", "AndAnd"), ("Not", "Minus"), ("Not", "Minus"), "@b"], "`a op !!b`, `a - --b`, `a * -!b` (rejected)"),
@@ -1007,5 +1078,14 @@ TARGETS = [
     tgt("gram_call", ["f", "LParen", "@a", "Comma", "b", ("Add", "OrOr"), "c", "RParen"], "`f(a, b op c)`: arguments in source order, each a full expression handed over unevaluated; variables in arguments are parameters"),
     tgt("gram_method", ["a", "Dot", "f", "LParen", "b", "Comma", "c", "RParen", ("Dot", "Add"), "d"], "`a.f(b, c).d`, `a.f(b, c) + d`: receiver, method name, arguments in source order"),
     tgt("gram_call_chain", ["f", "LParen", "a", "RParen", "Dot", "g", "LParen", "b", "Comma", "c", "RParen"], "`f(a).g(b, c)`: calls chain left to right"),
-    tgt("gram_paren3", ["LParen", "@a", tuple(REPS), "@b", "RParen", tuple(REPS), "c"], "`(a op1 b) op2 c`: parentheses on the left operand"),
+    tgt("gram_lines", ["a", ("Add", "OrOr", "LessThan"), "b", ("Multiply", "Question"), "c", ("Colon", "Add"), "d", "LBracket", "e", "RBracket"],
+        "`a + b * c + d[e]`, `a || b ? c : d[e]` ... with every token on its own line, each further left than the one before: spans are ordered by line first", layout=stairs),
+    tgt("gram_paren3", ["LParen", "@a", ("OrOr", "LessThan", "Minus", "Mod"), "@b", "RParen", ("AndAnd", "In", "Add", "Multiply"), "c"], "`(a op1 b) op2 c`: parentheses on the left operand"),
+    tgt("gram_paren3_all", ["LParen", "@a", tuple(REPS), "@b", "RParen", tuple(REPS), "c"], "`(a op1 b) op2 c`, 8 x 8 operators", tier="thorough"),
 ]
+
+# which property checks run which templates (every template decides all its obligations; this only
+# keeps each property's check to the templates that exercise its subject)
+for _t in TARGETS:
+    lazy = any(k in _t["name"] for k in ("atoms", "cond", "paren3", "chain4", "list", "map"))
+    _t["props"] = ["C02", "C09", "C17", "C18", "C10"] + (["C05"] if lazy else []) + (["C01"] if _t["name"] in ("gram_atoms2", "gram_call", "gram_unary") else [])
